@@ -40,6 +40,10 @@ def apply_pins(ep, args):
         ep.concrete_enums = tuple(args['concrete_enums'])
     if args.get('module_import'):
         ep.module_import = True
+    if args.get('str_keys'):
+        ep.str_keys = True
+    if args.get('private_names'):
+        ep.private_names = True
     return ep
 
 
@@ -48,7 +52,7 @@ def make_scenario(name, args):
         pol = dict(args['policy'])
         ep = apply_pins(ExprPolicy(**pol), args)
         cfg = ConfigSpec(args.get('config', DEFAULT_CFG), prefix=args.get('prefix', 'test'), verbosity=args.get('verbosity', 'Information'))
-        return BlockScenario(ep, cfg)
+        return BlockScenario(ep, cfg, wrapper=args.get('wrapper'), v8=args.get('v8'))
     raise KeyError(name)
 
 
@@ -177,11 +181,36 @@ CALLEE_Q = dict(scenario='block_expr', args=dict(policy=expr_profile([['Call', '
 PLANS['C04']['quick'] = PLANS['C04']['quick'] + [CALLEE_Q, ALL_D2]
 PLANS['C04']['thorough'] = PLANS['C04']['thorough'] + [CALLEE_Q, ALL_D2, OPERANDS_Q]
 
+# private names in member chains (inside a class method, so that `this.#x` parses)
+PRIVATE_Q = dict(scenario='block_expr', args=dict(policy=expr_profile([['Call', 'Bin'], ['Member', 'Ident', 'Call'], ['Member', 'This', 'Ident'], ['This', 'Ident']], max_args=(1, 0, 0, 0), names=['a'], props=['substring', 'call', 'foo'], bin_ops=['Add']),
+                                                  private_names=True, wrapper=('class K { #x; m() { ', ' } }')),
+                 label='calls / sums over member chains whose links may be private names (`this.#x.substring(a)`, `this.#x.call(a)`, `a.#x.foo.call(a)`), printed inside a class method')
+for p in ('C02', 'C04', 'C12'):
+    PLANS[p]['thorough'] = PLANS[p]['thorough'] + [PRIVATE_Q]
+
 # reserved-prefix collision: identifiers may be named like an injected temporary
 COLLISION_Q = dict(scenario='program', args=dict(policy=stmt_profile([['Block', 'Decl:Fn'], ['Expr', 'Decl:Var', 'Decl:Fn'], ['Return']], [['Bin', 'Ident', 'Call'], ['Ident', 'Call'], ['Ident']], bin_ops=['Add'], names=['a', '__datadog_test_0'], params=(0, 1), block_lens=(1, 2), op_budget=2, all_present=True), kinds=('Script',)),
                    label='blocks/functions whose identifiers (bindings, references, function names, parameters, call arguments) may be named __datadog_test_0, next to operations that need temporaries')
 PLANS['C06']['quick'] = PLANS['C06']['quick'] + [COLLISION_Q]
 PLANS['C06']['thorough'] = PLANS['C06']['thorough'] + [COLLISION_Q]
+
+# C16: hash-iteration-order independence of the block visitor (two runs, opposite orders)
+from scenario import DeterminismScenario
+
+_prev_make_det = make_scenario
+
+
+def make_scenario(name, args):
+    if name == 'determinism':
+        sp = apply_pins(StmtPolicy(**args['policy']), args)
+        cfg = ConfigSpec(args.get('config', DEFAULT_CFG), prefix=args.get('prefix', 'test'), verbosity=args.get('verbosity', 'Debug'))
+        return DeterminismScenario(sp, cfg, kinds=args.get('kinds', ('Script',)), prologue=False)
+    return _prev_make_det(name, args)
+
+
+DETERMINISM_Q = dict(scenario='determinism', args=dict(policy=stmt_profile([['Block'], ['Expr'], ['Expr']], [['OptChain', 'Bin', 'Ident'], ['OptChain', 'Ident', 'Member'], ['Ident']], bin_ops=['Add'], names=['a', '__datadog_test_7'], props=['substring'], params=(0,), block_lens=(1, 2), max_args=(0, 0, 0), op_budget=3, all_present=True),
+                                                       config=[dict(src='plusOperator', dst=None, operator=True, awc=False), dict(src='tplOperator', dst=None, operator=True, awc=False), dict(src='substring', dst='stringSubstring', operator=False, awc=False)]),
+                     label='two runs of the block visitor on the same program with opposite hash-container iteration orders: blocks of 1-2 expression statements with sums and optional chains over `substring`; identifiers may carry the reserved prefix; debug telemetry')
 
 # modules that start with an import declaration
 MODULE_Q = dict(scenario='program', args=dict(policy=stmt_profile([['Block', 'Decl:Fn', 'Expr'], ['Return', 'Expr']], [['Bin', 'Ident', 'Lit'], ['Ident']], bin_ops=['Add'], names=['a'], strs=['use strict', 'x'], quotes=["'"], directives=1, items=(1, 2), params=(0,), op_budget=1, all_present=True), kinds=('Module', 'Script'), module_import=True),
@@ -210,7 +239,11 @@ LIT_EXPRS = ['Lit', 'Bin', 'Call', 'New', 'Object', 'Ident']
 LITERALS_Q = dict(scenario='literals', args=dict(policy=stmt_profile([['Decl:Var', 'Expr', 'Block', 'Decl:Fn'], ['Decl:Var', 'Expr', 'Return'], ['Expr']], [LIT_EXPRS, ['Lit', 'Ident', 'Call'], ['Lit', 'Ident']], bin_ops=['Add'], names=['require', 'RegExp', 'foo'], props=['k'], max_args=(1, 1, 1, 0), params=(0,), op_budget=2, all_present=True, spread=False),
                                                  free_strings=(0, 300), enabled=(True, False)),
                   label='var initialisers / statements / object values / call and new arguments holding string literals of symbolic length 0..300 (callee names in {require, RegExp, foo}), top level, block and function body; collection on and off')
-PLANS['C14'] = {'quick': [LITERALS_Q], 'thorough': [LITERALS_Q]}
+# strings that are NOT string-literal expressions: quoted object keys, import sources
+LITERAL_KEYS_Q = dict(scenario='literals', args=dict(policy=stmt_profile([['Decl:Var', 'Expr'], ['Expr']], [['Object', 'Lit', 'Ident'], ['Lit', 'Ident', 'Object'], ['Lit', 'Ident']], bin_ops=['Add'], names=['foo'], props=['k'], max_args=(0, 0, 0), params=(0,), items=(1, 2), op_budget=2, all_present=True, spread=False),
+                                                     free_strings=(0, 300), enabled=(True,), kinds=('Module', 'Script'), module_import=True, str_keys=True),
+                      label='object literals with quoted (string) keys and modules starting with an import declaration: strings of symbolic length 0..300 in non-expression positions next to string-literal values')
+PLANS['C14'] = {'quick': [LITERALS_Q, LITERAL_KEYS_Q], 'thorough': [LITERALS_Q, LITERAL_KEYS_Q]}
 
 
 # source-map discovery
@@ -229,7 +262,7 @@ EXTRACT_T = dict(scenario='extract', args=dict(max_buckets=2), label='extract_so
 EXTRACT_Q = dict(scenario='extract', args=dict(max_buckets=2, per_bucket=(1,)), label='extract_source_map: file name in {"", a.js, /d/a.js, /, d/} x 0-2 trailing-comment buckets x 1-2 comments (5 texts) x decode_data_url/open/decode each returning any of their results; two DashMap iteration orders')
 PLANS['C13'] = {'quick': [EXTRACT_Q, ALL_D2, PROTO_Q, PLACEMENT_Q], 'thorough': [EXTRACT_T, ALL_D2, PROTO_T, PLACEMENT_Q, OPERANDS_Q]}
 PLANS['C10'] = {'quick': [EXTRACT_Q], 'thorough': [EXTRACT_T]}
-PLANS['C16'] = {'quick': [EXTRACT_Q], 'thorough': [EXTRACT_T]}
+PLANS['C16'] = {'quick': [EXTRACT_Q, DETERMINISM_Q], 'thorough': [EXTRACT_T, DETERMINISM_Q]}
 
 
 # C01: behavioural equivalence.  Short-circuit contexts with concrete operators; effectful leaves everywhere.
@@ -245,6 +278,14 @@ OPTCHAIN_Q = dict(scenario='block_expr', args=dict(policy=expr_profile([['OptCha
 for p in ('C01', 'C02', 'C03', 'C06', 'C12', 'C13', 'C15'):
     PLANS[p]['quick'] = PLANS[p]['quick'] + [OPTCHAIN_Q]
     PLANS[p]['thorough'] = PLANS[p]['thorough'] + [OPTCHAIN_Q]
+
+# optional chains as operand of delete / typeof / void (the reference, not the value, is what `delete` consumes)
+OPTCHAIN_UNARY_Q = dict(scenario='block_expr', args=dict(policy=expr_profile([['Unary'], ['OptChain'], ['OptChain', 'Ident'], ['OptChain', 'Ident', 'Member'], ['Ident']], max_args=(0, 0, 0, 0, 0), props=['substring', 'foo'], names=['a'], unary_ops=['Delete', 'TypeOf'], op_budget=5),
+                                                         config=[dict(src='plusOperator', dst=None, operator=True, awc=False), dict(src='substring', dst='stringSubstring', operator=False, awc=False)], concrete_enums=('UnaryOp',)),
+                        label='delete / typeof applied to optional chains of up to 3 links with instrumented method calls in the spine (`delete a?.b.substring().c`)')
+for p in ('C01', 'C02'):
+    PLANS[p]['quick'] = PLANS[p]['quick'] + [OPTCHAIN_UNARY_Q]
+    PLANS[p]['thorough'] = PLANS[p]['thorough'] + [OPTCHAIN_UNARY_Q]
 
 
 # transform_js glue (C12)
@@ -324,6 +365,10 @@ def make_scenario(name, args):
 TOCONFIG_Q = dict(scenario='to_config', args={}, label='RewriterConfig::to_config: every Option<bool> in {None, Some(true), Some(false)} x prefix {None, given} x verbosity {None, OFF, off, Debug, MANDATORY, INFORMATION, bogus, ""} (methods absent); and methods {None, [], [2 methods: first with dst/operator/allowedWithoutCallee each None or given, second with dst None or given]} (other options absent); fastrand as a symbolic index, the parser of the prologue stubbed (its input text is checked)')
 PLANS['C05']['quick'] = PLANS['C05']['quick'] + [TOCONFIG_Q]
 PLANS['C05']['thorough'] = PLANS['C05']['thorough'] + [TOCONFIG_Q]
+# the prologue statements produced here are emitted into every modified file: their positions matter for C09 (source map) and C13
+for p in ('C09', 'C13'):
+    PLANS[p]['quick'] = PLANS[p]['quick'] + [TOCONFIG_Q]
+    PLANS[p]['thorough'] = PLANS[p]['thorough'] + [TOCONFIG_Q]
 
 
 # telemetry under every verbosity (count, debug breakdown by tag)
@@ -357,3 +402,7 @@ ARROW_FLAGS_Q = dict(scenario='block_expr', args=dict(policy=expr_profile([['Arr
 for p in ('C06', 'C02', 'C01', 'C12'):
     PLANS[p]['quick'] = PLANS[p]['quick'] + [ARROW_FLAGS_Q]
     PLANS[p]['thorough'] = PLANS[p]['thorough'] + [ARROW_FLAGS_Q]
+
+
+PLANS['C13']['quick'] = PLANS['C13']['quick'] + [PRIVATE_Q]
+PLANS['C13']['thorough'] = PLANS['C13']['thorough'] + [PRIVATE_Q]
